@@ -2,6 +2,7 @@ import PsV.Driver.Common
 import PsV.Driver.C04
 import PsV.Driver.Eval
 import PsV.Driver.C11
+import PsV.Driver.C10
 open PsV.Driver
 
 def stateless (f : List String → String) : IO Unit := do
@@ -10,7 +11,8 @@ def stateless (f : List String → String) : IO Unit := do
 def drivers : List (String × IO Unit) :=
   [("C04", stateless C04.handle),
    ("EV", Eval.run),
-   ("C11", C11.run)]
+   ("C11", C11.run),
+   ("C10", C10.run)]
 
 def main (args : List String) : IO UInt32 := do
   match args with
